@@ -36,6 +36,8 @@ def applicable_faults(prog, kinds=None):
             out.append({'kind': k, 'at': idx})
     for mode in ('raises', 'junk_none', 'junk_int', 'junk_list', 'ok'):
         out.append({'kind': 'extractor', 'mode': mode})
+    for mode in ('junk_keys', 'junk_pairs', 'junk_str'):
+        out.append({'kind': 'extractor_odd', 'mode': mode})
     out.append({'kind': 'save_fails'})
     if kinds is not None:
         out = [f for f in out if f['kind'] in kinds]
@@ -53,7 +55,7 @@ def apply_faults(prog, faults):
     flags = {}
     for f in faults:
         k = f['kind']
-        if k in INSERTS or k in ('extractor', 'save_fails'):
+        if k in INSERTS or k in ('extractor', 'extractor_odd', 'save_fails'):
             continue
         s = p['steps'][f['at']]
         if k == 'unencodable_arg':
@@ -77,7 +79,7 @@ def apply_faults(prog, faults):
     for f in sorted([f for f in faults if f['kind'] in INSERTS], key=lambda f: -f['at']):
         p['steps'].insert(f['at'], dict(INSERTS[f['kind']]))
     for f in faults:
-        if f['kind'] == 'extractor':
+        if f['kind'] in ('extractor', 'extractor_odd'):
             p['extractor'] = f['mode']
             p['extractor_meta'] = [['user_key', 'user value'], ['n', 3]]
         elif f['kind'] == 'save_fails':
@@ -96,7 +98,7 @@ def compatible(f1, f2):
             return False
         if {a, b} == {'unencodable_arg', 'unserialisable_out_arg'}:
             return False
-    if f1['kind'] == 'extractor' and f2['kind'] == 'extractor':
+    if f1['kind'].startswith('extractor') and f2['kind'].startswith('extractor'):
         return False
     return True
 
@@ -170,7 +172,20 @@ class FaultRun(object):
         import time
         import datetime
         self.t_before, self.utc_before = time.time(), datetime.datetime.utcnow()
-        self.outcome = PS.execute(self.cls, prog)
+        handler = flags.get('within_handler')
+        if handler == 'exception':
+            # the service calls the operation from an except block (fallback / retry / cleanup code)
+            try:
+                raise RuntimeError('caller is handling this')
+            except RuntimeError:
+                self.outcome = PS.execute(self.cls, prog)
+        elif handler == 'interrupt':
+            try:
+                raise V.Interrupt('caller is handling this')
+            except V.Interrupt:
+                self.outcome = PS.execute(self.cls, prog)
+        else:
+            self.outcome = PS.execute(self.cls, prog)
         self.t_after, self.utc_after = time.time(), datetime.datetime.utcnow()
         self.after = self.zoo.snapshot(self.cas)
         self.spy_log = list(self.cas.spy_log)
